@@ -52,7 +52,7 @@ let enc_forest (f : forest) : string =
 
 (* ---------------------------------------------------------------- the layout of the hand-built section *)
 let osz fmt = if fmt = 8 then 8 else 4
-let hdr_size ver fmt extra = (if fmt = 8 then 12 else 4) + 2 + osz fmt + 1 + (if ver >= 5 then 1 else 0) + extra
+let hdr_size ver fmt (hx, _) = (if fmt = 8 then 12 else 4) + 2 + osz fmt + 1 + (if ver >= 5 then 1 else 0) + hx
 let form_size = function 0x11 -> 1 | 0x12 -> 2 | 0x13 -> 4 | 0x14 -> 8 | _ -> 5
 let op_base fmt = function
   | 0 -> 7 | 1 -> 7 | 2 -> 8 | 3 -> 6 | 4 -> 6 | 5 -> 5 | 6 -> 5
@@ -73,7 +73,7 @@ let layout ver fmt extra (f : forest) : layout =
   let uoff = Array.make (nu + 1) 0 and ulen = Array.make nu 0 in
   let eoffs = ref [] in
   List.iteri (fun j u ->
-    let pos = ref (hdr + 7) in
+    let pos = ref (hdr + 7 + snd extra) in
     let a = Array.of_list u in
     Array.iteri (fun i e ->
       eoffs := (j, !pos) :: !eoffs;
@@ -191,7 +191,7 @@ let show_attrs tol ver fmt extra (f : forest) (req : int list) (dbg : bool) : st
   | Res.OutOfFuel -> "outoffuel"
 
 let show_split ver fmt (f : forest) (req : int list) (dbg : bool) : string =
-  let aunits, l = to_model ver fmt 8 f in
+  let aunits, l = to_model ver fmt (if ver >= 5 then (8, 0) else (0, 8)) f in
   let h = ident_table l in
   let id x = try Hashtbl.find h (int_of_n x) with Not_found -> "?" in
   let units = List.map FilterAttrs.unit_of aunits in
@@ -326,7 +326,7 @@ let case_attrs stream mode ver fmt asz f req =
 
 let emit_attrs emit mode ver fmt asz f req =
   if List.for_all (List.for_all (expr_fits fmt)) f then
-    both emit (case_attrs "c1901.attrs" mode ver fmt asz f req) (show_attrs (mode = 1) ver fmt 0 f req)
+    both emit (case_attrs "c1901.attrs" mode ver fmt asz f req) (show_attrs (mode = 1) ver fmt (0, 0) f req)
 
 let ent ?(attrs = []) depth tag = { depth; tag; attrs }
 
@@ -383,26 +383,34 @@ let () =
       List.iter (fun shape ->
         List.iter (fun tags ->
           let u = List.map2 (fun d t -> ent d t) shape tags in
-          List.iter (fun req -> one 5 4 8 [ u ] req) (subsets 3))
+          List.iter (fun req -> one 5 4 8 [ u ] req; one 4 4 8 [ u ] req) (subsets 3))
           [ [ t_struct; t_member; t_var ]; [ t_ns; t_struct; t_var ]; [ t_subprogram; t_param; t_base ] ])
         [ [ 1; 1; 1 ]; [ 1; 2; 1 ]; [ 1; 2; 2 ]; [ 1; 2; 3 ]; [ 1; 1; 2 ] ];
+      (* a .dwo section with two units: required sets over both units, a cross-unit DW_FORM_ref_addr *)
+      List.iter (fun ver ->
+        List.iter (fun xref ->
+          let f = [ [ ent 1 t_struct; ent 2 t_member; ent 1 t_var ~attrs:(if xref then [ { name = 0x49; k = IRef (0, 3) } ] else []) ];
+                    [ ent 1 t_base; ent 1 t_var ~attrs:[ { name = 0x49; k = URef (0x13, (0, 3)) } ] ] ] in
+          List.iter (fun req -> one ver 4 8 f req) (subsets 5)) [ false; true ]) [ 5; 4 ];
       let r = mk_rng (seed * 4051 + 11) in
       let made = ref 0 in
       while !made < n do
         let (fmt, asz) = pick r [| (4, 8); (8, 8); (4, 4) |] in
+        let ver = if rand_int r 3 = 0 then 4 else 5 in
+        let nunits = (match rand_int r 4 with 0 -> 2 | 1 -> 3 | _ -> 1) in
         let total = 1 + rand_int r 12 in
-        let f = gen_forest r ~fmt ~sizes:[ total ] ~oob:0 ~maxattrs:3 in
+        let f = gen_forest r ~fmt ~sizes:(split_sizes r total nunits) ~oob:0 ~maxattrs:3 in
         let cnt = count f in
         if cnt <= 5 then
-          List.iter (fun req -> one 5 fmt asz f req; incr made) (subsets cnt)
+          List.iter (fun req -> one ver fmt asz f req; incr made) (subsets cnt)
         else
-          for _ = 1 to 6 do one 5 fmt asz f (random_subset r cnt); incr made done
+          for _ = 1 to 6 do one ver fmt asz f (random_subset r cnt); incr made done
       done);
   register "c1901.bounds"
     ~doc:"UnitOffset::is_in_bounds, UnitOffset::to_unit_section_offset (unchecked usize +: panic in debug, wrap in release) and UnitSectionOffset::to_unit_offset of the public API on the units of a hand-built section against in_bounds / to_unit_section_offset / to_unit_offset of the model; exhaustive: every offset in [0, section length + 2] for both units of three layouts, and the values 2^64-1-d, 2^63+-d, 2^32+-d"
     (fun ~seed ~n emit ->
       let one ver fmt asz f sel (o : Z.t) (x : Z.t) =
-        let aunits, l = to_model ver fmt 0 f in
+        let aunits, l = to_model ver fmt (0, 0) f in
         let u = FilterAttrs.unit_of (List.nth aunits sel) in
         let case = Printf.sprintf "c1901.bounds %d %d %d %s %d %s %s" ver fmt asz (enc_forest f) sel (Z.to_string o) (Z.to_string x) in
         both emit case (fun dbg ->
@@ -415,7 +423,7 @@ let () =
       let f2 = [ []; [ ent 1 t_base ~attrs:[ { name = 0x0b; k = Plain 4 } ] ]; [] ] in
       let two64 = Z.shift_left Z.one 64 in
       List.iter (fun (ver, fmt, asz, f) ->
-        let _, l = to_model ver fmt 0 f in
+        let _, l = to_model ver fmt (0, 0) f in
         let nu = Array.length l.ulen in
         let total = l.uoff.(nu) in
         for sel = 0 to nu - 1 do
@@ -433,7 +441,7 @@ let () =
         let nunits = 1 + rand_int r 3 in
         let f = gen_forest r ~fmt ~sizes:(split_sizes r (rand_int r 8) nunits) ~oob:0 ~maxattrs:2 in
         if List.for_all (List.for_all (expr_fits fmt)) f then begin
-          let _, l = to_model ver fmt 0 f in
+          let _, l = to_model ver fmt (0, 0) f in
           let total = l.uoff.(nunits) in
           let v () = match rand_int r 4 with
             | 0 -> Z.of_int (rand_int r (total + 4))
